@@ -155,3 +155,12 @@ fn c10_arena_monotone_in_limit() {
     core::mem::forget(a2);
 }
 
+
+/// helper for harnesses of other modules: an arena that already holds two buffered bytes (state injected,
+/// contents stay concrete for the solver) with its two bytes charged to the limiter
+pub(crate) fn arena_holding2(limiter: SharedMemoryLimiter, bytes: [u8; 2]) -> Arena {
+    let mut a = Arena::new(limiter.clone(), 0);
+    let _ = limiter.increase_usage(2);
+    a.data = Vec::from(bytes);
+    a
+}
